@@ -200,6 +200,35 @@ func randIntent(rng *rand.Rand, s Sem) intent {
 	return it
 }
 
+// relatedOrigins: for every ordered pair of listed patterns (p, q), origins built from p's host (itself, a label below it, a
+// label glued in front of it) with q's scheme and port: whether they are allowed is for TLC to say.
+func relatedOrigins(s Sem) []cOrigin {
+	var out []cOrigin
+	seen := map[string]bool{}
+	for i, p := range s.Pats {
+		if p.Wild || strings.HasPrefix(p.Host, "[") {
+			continue
+		}
+		for j, q := range s.Pats {
+			if i == j {
+				continue
+			}
+			port := q.Port
+			if port == anyPort {
+				port = 4711
+			}
+			for _, h := range []string{p.Host, "v2." + p.Host, "my" + p.Host} {
+				o := cOrigin{Scheme: q.Scheme, Host: h, Port: port}
+				if !seen[o.String()] && len(out) < 48 {
+					seen[o.String()] = true
+					out = append(out, o)
+				}
+			}
+		}
+	}
+	return out
+}
+
 // acrhLines renders the browser's ACRH value (sorted, unique, byte-lower-case, comma-joined, no
 // whitespace) under one of the tolerated intermediary perturbations. It returns the field
 // lines and the perturbation's name.
@@ -281,8 +310,16 @@ func cmdC02(args []string) {
 	defer t.close()
 	var cells, cfgs, rejected, nontrivial int
 	var samples []any
-	for cells < *n {
+	// deterministic start: every kind of configuration (serve.go) and a specific pattern listed under a wildcard that covers
+	// its host with another port; then seeded ones
+	fixed := append(fixedSems(rng), Sem{Status: 204, Pna: "none", Meths: []string{"PUT"}, HNames: []string{"x-a"}, Pats: []cPattern{
+		{Scheme: "https", Wild: true, Host: "example.com"}, {Scheme: "https", Host: "api.example.com", Port: 8443},
+		{Scheme: "https", Host: "foo.example.net"}, {Scheme: "https", Wild: true, Host: "example.net"}}})
+	for ci := 0; cells < *n; ci++ {
 		s := randSem(rng)
+		if ci < len(fixed) && len(fixed[ci].Pats) <= 8 {
+			s = fixed[ci]
+		}
 		cfg := s.spell(rng)
 		c02Builds++
 		m := buildVia(*cfg, c02Builds) // every documented way of arriving at (cfg, debug off)
@@ -300,8 +337,14 @@ func cmdC02(args []string) {
 		}
 		cfgs++
 		t.emit(map[string]any{"ev": "Config", "sem": s.toJSON(), "cfg": cfgJSON(cfg)})
-		for k := 0; k < 24; k++ {
+		related := relatedOrigins(s)
+		for k := 0; k < 24+len(related); k++ {
 			it := randIntent(rng, s)
+			if k >= 24 { // origins RELATED to two listed patterns at once (host of one, scheme / port of the other; below, beside)
+				it.Origin = related[k-24]
+				it.Hdrs, it.Pna = nil, false
+				it.Method = []string{"GET", "PUT"}[k%2]
+			}
 			pert := perts[rng.Intn(len(perts))]
 			for _, dbg := range []bool{false, true} {
 				m.SetDebug(dbg)
